@@ -324,13 +324,15 @@ def check_wrapping_distance(ctx, F):
         ctx.ok('R4', role, anchors.RDEC, '%d expressions relate point and lower, all through wrapping_sub' % n_sites, key=key)
 
 
-def _seal_addend(spaths):
+def _seal_addend(spaths, F=None):
     """(A, k): seal() writes  ((lower +w A) >> k) as Word."""
     for r in spaths or []:
         for e in r.events:
             if e['kind'] != 'call' or not e['callee'].endswith('WriteWords::write'):
                 continue
             for a in e['args']:
+                if F is not None:
+                    a = rules.inline_pure(F, a)      # the point may be computed by a private pure helper
                 for x in sym.subterms(a):
                     if isinstance(x, tuple) and x and x[0] == 'bin' and x[1] == 'Shr' and isinstance(x[2], tuple) and x[2][0] == 'bin' and x[2][1].split('.')[0] == 'Add':
                         for l, add in ((x[2][2], x[2][3]), (x[2][3], x[2][2])):
@@ -391,7 +393,7 @@ def check_seal_point(ctx, F):
     ctx.touch(seal); ctx.touch(enc)
     _, spaths = rules.evaluate(seal)
     _, epaths = rules.evaluate(enc)
-    A, k, A_term = _seal_addend(spaths)
+    A, k, A_term = _seal_addend(spaths, F)
     SB = pow2.bits_of('State')
     lower_is = lambda x: c18._is_field(x, 'state', 'lower')
     # (1) the renormalisation bound of range
@@ -433,6 +435,7 @@ def check_seal_point(ctx, F):
         cs = []
         unknown = []
         for t, v, _ in r.preds:
+            t = rules.inline_pure(F, t)
             if not sym.contains(t, lower_is) or sym.contains(t, lambda x: isinstance(x, tuple) and x and x[0] == 'call' and x[3] is not None):
                 continue
             if ws[0]['block'] is not None and False:
